@@ -141,4 +141,6 @@ def nontrivial(c):
 
 def extra_coverage():
     return {"c03_counts": STATS,
-            "unproved_classes": "see lean/FalconProofs/Props/C03.lean header: classes under (A) / (C)"}
+            "unproved_classes": ["ldst_regoff", "ld_literal", "ldst_pair", "ldst_ordered", "ldst_rcpc_unscaled (stlur)",
+                                 "SIMD&FP loads/stores (V=1)", "prefetch"],
+            "proved_classes": "see lean/FalconProofs/Props/C03.lean header (A)"}
